@@ -24,7 +24,7 @@ import traceback
 from . import common
 from . import known as known_mod
 
-MAX_REPLAYS = 12
+MAX_REPLAYS = 40
 
 
 def _is_library_exception(tb_exc):
@@ -191,13 +191,20 @@ def finish(pid, mod, spec, tier, seed, rep, total, capped, cap_s, wall, kf):
     # violations
     written = 0
     seen_kinds = collections.Counter()
+    if os.path.isdir(out_dir):
+        for fn in os.listdir(out_dir):
+            if fn.endswith(".json"):
+                try:
+                    os.remove(os.path.join(out_dir, fn))
+                except OSError:
+                    pass
     if rep.violations:
         os.makedirs(out_dir, exist_ok=True)
     for case, v in rep.violations:
         seen_kinds[v.get("kind")] += 1
-        if written >= MAX_REPLAYS or seen_kinds[v.get("kind")] > 4:
+        if written >= MAX_REPLAYS or seen_kinds[v.get("kind")] > 3:
             continue
-        path = os.path.join(out_dir, f"{v.get('kind','violation')}_{case_hash(case)}.json")
+        path = os.path.join(out_dir, f"{v.get('kind','violation')}_{case_hash(case)}_{seen_kinds[v.get('kind')]}.json")
         with open(path, "w") as f:
             json.dump({"property": pid, "tier": tier, "seed": seed, "case": case, "violation": v,
                        "replay_cmd": f"./check {pid} --replay {path}"}, f, indent=1, default=str)
@@ -206,6 +213,12 @@ def finish(pid, mod, spec, tier, seed, rep, total, capped, cap_s, wall, kf):
         written += 1
     if rep.violations:
         exit_code = 1
+        import re
+        hist = collections.Counter()
+        for case, v in rep.violations:
+            hist[v.get("kind", "") + " | " + re.sub(r"\(['\w]+, ?['\w]+\)|\d+(\.\d+)?", "#", str(v.get("msg", "")))[:150]] += 1
+        for k, c in hist.most_common(25):
+            lines.append(f"  [{c:5d}] {k}")
         lines.append(f"  total violating observations: {len(rep.violations)} by kind {dict(seen_kinds)}")
     for case, err in rep.harness_errors[:3]:
         lines.append("HARNESS-ERROR " + json.dumps(case, default=str)[:300])
